@@ -122,7 +122,13 @@ def gen_case(rng, malformed=False, partition=False, max_size=40):
         for _ in range(rng.choice([0, 0, 1, 1, 2])):
             a, b = rng.sample(t4ids, 2) if len(t4ids) >= 2 else (t4ids[0],) * 2
             a, b = min(a, b), max(a, b)
-            rn[b] = rn[a]
+            # remove_duplicate_surfaces maps every member of a class to its
+            # smallest member (which maps to itself)
+            ra, rb = rn[a], rn[b]
+            lo, hi = min(ra, rb), max(ra, rb)
+            for t in t4ids:
+                if rn[t] == hi:
+                    rn[t] = lo
         if fault == 'rn':
             del rn[rng.choice(t4ids)]
     skipped = [c for c in order if cells[c]['imp'] == 0]
@@ -412,7 +418,9 @@ def run_impl(case, rng):
                         for k, v in conv.convert_cellref_cache.items()
                         if v is not None)
             if case['rn'] is not None and len(dic_vol):
+                # as convertMCNPGeometry does after the de-duplication
                 dic_vol = renumber_surfaces(dic_vol, case['rn'])
+                union_ids = tuple(case['rn'][surf] for surf in union_ids)
             remove_empty_volumes(dic_vol, union_ids)
             remove_unused_volumes(dic_vol)
     except Exception as exc:     # pylint: disable=broad-except
@@ -493,26 +501,36 @@ def vden(table, vid, sigma, depth=0):
 
 
 def assignments(case, rng, limit=1024):
-    '''Consistent sense assignments: constant on the classes of the
-    renumbering, helper planes x=1 / x=-1 ordered.'''
+    '''Consistent sense assignments: sigma(rn x) = sigma x for every x (classes
+    of the renumbering, by closure), helper planes x=1 / x=-1 ordered.'''
     u0, u1 = case['u0'], case['u1']
-    ids = sorted({abs(t) for v in case['matching'].values() for t in v})
+    ids = sorted({abs(t) for v in case['matching'].values() for t in v}
+                 | {u0, u1})
     rn = case['rn'] or {}
-    reps = sorted({rn.get(t, t) for t in ids + [u0, u1]})
-    total = 2 ** len(reps)
+    parent = {t: t for t in ids}
+    for a, b in rn.items():
+        parent.setdefault(a, a)
+        parent.setdefault(b, b)
 
-    def expand(bits):
-        val = dict(zip(reps, bits))
-        sigma = {t: val[rn.get(t, t)] for t in ids + [u0, u1]}
-        for t in reps:
-            sigma.setdefault(t, val[t])
-        return sigma
+    def find(x):
+        while parent[x] != x:
+            parent[x] = parent[parent[x]]
+            x = parent[x]
+        return x
+    for a, b in rn.items():
+        ra, rb = find(a), find(b)
+        if ra != rb:
+            parent[max(ra, rb)] = min(ra, rb)
+    everything = sorted(parent)
+    reps = sorted({find(t) for t in everything})
+    total = 2 ** len(reps)
     if total <= limit:
         stream = itertools.product([False, True], repeat=len(reps))
     else:
         stream = ([rng.random() < 0.5 for _ in reps] for _ in range(limit))
     for bits in stream:
-        sigma = expand(bits)
+        val = dict(zip(reps, bits))
+        sigma = {t: val[find(t)] for t in everything}
         if sigma[u0] and not sigma[u1]:
             continue
         yield sigma
